@@ -384,11 +384,20 @@ End Ret.
 (* p = number of program variables (cells 0..p-1) *)
 Definition run_heap_ret (fuel : nat) (p : nat) (ops : list rop) : obs := OL (rrun_obs fuel (hinit p) [] ops).
 
-(* the observations are those of rrun *)
-Lemma rrun_obs_stuck_or_run fuel : forall ops h K h' outs, rrun fuel h ops = Some (h', outs) ->
-  length (rrun_obs fuel h K ops) = length ops.
+(* what the executable prints is what the theorems speak about: a final RKept prints `kept outs` of the run (after the
+   answers K retained before it), each answer under the bindings of the final state *)
+Lemma kept_obs_den s K :
+  map (fun a => args_obs (map (den_fast s) a)) K = map (fun a => args_obs (map (den s) a)) K.
+Proof. apply map_ext. intros a. f_equal. apply map_ext. intros t. apply den_fast_eq. Qed.
+
+Lemma rrun_obs_kept fuel : forall ops h K h' outs, rrun fuel h ops = Some (h', outs) ->
+  rrun_obs fuel h K (ops ++ [RKept]) =
+  rrun_obs fuel h K ops ++ [otag "kept"%string [OL (map (fun a => args_obs (map (den (hs h')) a)) (K ++ kept outs))]].
 Proof.
-  induction ops as [|o r IH]; intros h K h' outs H; simpl in *; auto.
-  destruct (rstep fuel h o) as [[h1 x]|]; [|discriminate].
-  destruct (rrun fuel h1 r) as [[h2 xs]|] eqn:E; [|discriminate]. simpl. f_equal. eapply IH; eauto.
+  induction ops as [|o r IH]; intros h K h' outs H; simpl in H.
+  - inversion H; subst. unfold kept. simpl. rewrite app_nil_r. rewrite kept_obs_den. reflexivity.
+  - destruct (rstep fuel h o) as [[h1 x]|] eqn:ES; [|discriminate].
+    destruct (rrun fuel h1 r) as [[h2 xs]|] eqn:E; [|discriminate]. inversion H; subst; clear H.
+    cbn [app rrun_obs]. rewrite ES. cbn [app]. f_equal.
+    rewrite (IH h1 (K ++ answers_of x)%list h' xs E). unfold kept. simpl. rewrite app_assoc. reflexivity.
 Qed.
